@@ -1,4 +1,5 @@
 import Apko.Model.Version
+import Apko.Generated.TransVersion
 /-! line-protocol handlers for corr:version -/
 namespace Apko.Driver.Version
 open Apko
@@ -75,6 +76,20 @@ def handle (args : List String) : Option String :=
     let join (w pv : String) : String := if w == pv then w else s!"world={w},dep={w},provided={pv}"
     some <| triple (join (implOn tv) (implOn pvText)) (join (specOn tv) (specOn pvText))
       (if bigField tv || bigField p.version then "F03a" else "unlisted")
+  | ["tv.sat", c, v] =>
+    -- the check on the Go → Lean translator: Go's SatisfiedBy against the regenerated translation of
+    -- `versionDependency.satisfies` (impl) and against the hand-written model (spec); see Proofs/TransVersion.lean
+    let p := parseConstraint (unhexS c)
+    let tv := unhexS v
+    let run (sat : Dep → Apko.Version → Apko.Version → Bool) : String :=
+      match Impl.parseVersion tv with
+      | none => "verr"
+      | some x =>
+        if p.version.isEmpty then "true" else
+        match Impl.parseVersion p.version with
+        | none => "err"
+        | some pv => showOB (some (sat p.dep x pv))
+    some (run Generated.Trans.satisfies ++ "\t" ++ run Dep.satisfies ++ "\tunlisted")
   | _ => none
 
 end Apko.Driver.Version
